@@ -468,38 +468,52 @@ func checkDistanceDelegated(c *Ctx, p *Prog, rule string) {
 		c.Undecided(rule, "FindColor", "-", "not found")
 		return
 	}
-	dist := callsIn(fn, func(n string, _ *ssa.CallCommon) bool { return strings.HasSuffix(n, "go-colorful.Color).DistanceCIE76") })
-	scaled, other := 0, ""
-	eachInstr(fn, func(in ssa.Instruction) {
-		bo, ok := in.(*ssa.BinOp)
+	// FindColor together with the helpers it is written with (RGB() itself is the colour's own decoding)
+	deep := deepInstrs(p, fn, 3, func(_ ssa.Instruction, callee *ssa.Function) bool { return callee.Name() != "RGB" })
+	// component i of an RGB() result, converted and divided by 255
+	scaledComponent := func(v ssa.Value) (int, bool) {
+		bo, ok := v.(*ssa.BinOp)
+		if !ok || bo.Op != token.QUO {
+			return 0, false
+		}
+		if k, isK := bo.Y.(*ssa.Const); !isK || k.Value == nil || k.Value.String() != "255" {
+			return 0, false
+		}
+		ex, ok := stripConv(bo.X).(*ssa.Extract)
 		if !ok {
-			return
+			return 0, false
 		}
-		if _, isF := bo.Type().Underlying().(*types.Basic); !isF || bo.Type().Underlying().(*types.Basic).Info()&types.IsFloat == 0 {
-			return
+		call, ok := ex.Tuple.(*ssa.Call)
+		if !ok || !strings.HasSuffix(calleeName(&call.Call), "Color).RGB") {
+			return 0, false
 		}
-		if bo.Op == token.QUO {
-			if k, isK := bo.Y.(*ssa.Const); isK && k.Value != nil && k.Value.String() == "255" {
-				scaled++
-				return
+		return ex.Index, true
+	}
+	nDist, scaled, other, fields := 0, 0, "", ""
+	for _, d := range deep {
+		if cc := callCommon(d.in); cc != nil && strings.HasSuffix(calleeName(cc), "go-colorful.Color).DistanceCIE76") {
+			nDist++
+		}
+		if bo, ok := d.in.(*ssa.BinOp); ok {
+			if bt, isB := bo.Type().Underlying().(*types.Basic); isB && bt.Info()&types.IsFloat != 0 {
+				if _, isS := scaledComponent(bo); isS {
+					scaled++
+				} else {
+					other += fmt.Sprintf("%s at %s; ", bo.Op, p.pos(bo.Pos()))
+				}
 			}
 		}
-		if bo.Op == token.LSS || bo.Op == token.GTR || bo.Op == token.LEQ || bo.Op == token.GEQ || bo.Op == token.EQL || bo.Op == token.NEQ {
-			return
-		}
-		other += fmt.Sprintf("%s at %s; ", bo.Op, p.pos(bo.Pos()))
-	})
-	// no module function other than RGB() is called for the arithmetic
-	helpers := ""
-	eachInstr(fn, func(in ssa.Instruction) {
-		if cc := callCommon(in); cc != nil {
-			if callee := cc.StaticCallee(); callee != nil && callee.Pkg == p.Tcell && callee.Name() != "RGB" {
-				helpers += callee.Name() + "; "
+		// the colours handed to go-colorful carry red, green and blue in that order
+		if st, ok := d.in.(*ssa.Store); ok {
+			if fa, isFA := st.Addr.(*ssa.FieldAddr); isFA && strings.HasSuffix(typeName(fa.X.Type()), "go-colorful.Color") {
+				if i, isS := scaledComponent(st.Val); !isS || i != fa.Field {
+					fields += fmt.Sprintf("field %d of the colorful.Color at %s is not component %d of RGB() over 255; ", fa.Field, p.pos(st.Pos()), fa.Field)
+				}
 			}
 		}
-	})
-	c.Check(len(dist) == 1 && scaled == 6 && other == "" && helpers == "", rule, "FindColor:distance-delegated", p.pos(fn.Pos()),
-		fmt.Sprintf("%d call(s) of go-colorful's DistanceCIE76, %d components scaled by /255.0, other floating-point arithmetic: [%s] helpers: [%s]", len(dist), scaled, other, helpers))
+	}
+	c.Check(nDist >= 1 && scaled >= 3 && scaled%3 == 0 && other == "" && fields == "", rule, "FindColor:distance-delegated", p.pos(fn.Pos()),
+		fmt.Sprintf("%d call(s) of go-colorful's DistanceCIE76, %d components scaled by /255.0, other floating-point arithmetic: [%s] %s", nDist, scaled, other, fields))
 }
 
 // checkAppendedEventsConstructed: what a parser appends to the event list is an event it has just
